@@ -1276,7 +1276,18 @@ def propagate_new_temporaries(fn, pinfn):
                         if isinstance(x, ast.Call) and isinstance(x.func, ast.Attribute) and x.func.attr in MUTATORS and isinstance(x.func.value, ast.Name) and x.func.value.id in read:
                             clash = True
                         if isinstance(x, ast.Call) and chains:
-                            clash = True            # a call may change what an attribute or item read at definition time holds
+                            # a call may change what an attribute or item read at definition time holds - when it can reach the
+                            # object: the object is not a plain local, or it is the receiver or an argument of the call
+                            roots = set()
+                            for c in chains:
+                                if c.rsplit('.', 1)[-1] in ('itemsize', 'names', 'ndim', 'dtype') and '[' not in c.rsplit('.', 1)[-1]:
+                                    continue        # fixed for the life of a numpy dtype / array
+                                r_ = c.split('.')[0].split('[')[0]
+                                roots.add(r_)
+                            localroots = set(r_ for r_ in roots if r_ in stores and r_ not in params and r_ != 'self')
+                            reach = set(n_.id for part in [x.func] + list(x.args) + [k_.value for k_ in x.keywords] for n_ in ast.walk(part) if isinstance(n_, ast.Name))
+                            if roots - localroots or (reach & roots):
+                                clash = True
                     if isinstance(x, ast.AugAssign) and isinstance(x.target, ast.Name) and x.target.id in read:
                         clash = True
             # a region inside a loop that re-enters: the definition is re-executed too (same block), fine
